@@ -22,6 +22,7 @@ import (
 	"github.com/256dpi/lungo/bsonkit"
 	"github.com/256dpi/lungo/mongokit"
 
+	"verif/internal/e1"
 	"verif/internal/par"
 	"verif/internal/world"
 )
@@ -902,7 +903,11 @@ func c20Worker(quick bool, k, n int) {
 		// progress marker for the parent in case this process dies of a fatal error
 		fmt.Fprintf(os.Stderr, "CASE %d\n", i)
 		done := make(chan string, 1)
+		fin := make(chan struct{})
+		gid := make(chan string, 1)
 		go func() {
+			defer close(fin)
+			gid <- e1.GoroutineID()
 			defer func() {
 				if p := recover(); p != nil {
 					msg := fmt.Sprint(p)
@@ -918,13 +923,14 @@ func c20Worker(quick bool, k, n int) {
 			cs.run(w)
 		}()
 		var res string
-		select {
-		case res = <-done:
-		case <-time.After(60 * time.Second):
-			out.Violations = append(out.Violations, shardViolation{"hang:" + cs.kind, cs.desc() + " did not return within 60 s", map[string]interface{}{"case": cs.desc()}})
+		// a case that has not returned after 60 s is looked at: blocked at the same place over several samples, or
+		// still running after 3 more minutes, is a hang; a case that is merely slow on a loaded machine is waited for
+		if what, _ := e1.AwaitStep(<-gid, fin, 60*time.Second, 3*time.Minute); what != "" {
+			out.Violations = append(out.Violations, shardViolation{"hang:" + cs.kind, cs.desc() + ": " + what, map[string]interface{}{"case": cs.desc()}})
 			emit()
 			os.Exit(0)
 		}
+		res = <-done
 		out.Ran++
 		out.ByKind[strings.SplitN(cs.kind, ":", 2)[0]]++
 		if res != "" {
@@ -935,7 +941,11 @@ func c20Worker(quick bool, k, n int) {
 		if cs.db || res != "" || sinceProbe >= 500 {
 			sinceProbe = 0
 			probe := make(chan error, 1)
+			pfin := make(chan struct{})
+			pgid := make(chan string, 1)
 			go func() {
+				defer close(pfin)
+				pgid <- e1.GoroutineID()
 				defer func() {
 					if p := recover(); p != nil {
 						probe <- fmt.Errorf("panic: %v", p)
@@ -947,14 +957,11 @@ func c20Worker(quick bool, k, n int) {
 				}
 				probe <- err
 			}()
-			select {
-			case err := <-probe:
-				if err != nil {
-					out.Violations = append(out.Violations, shardViolation{"engine-unusable:" + cs.kind, "after " + cs.desc() + " the next write fails: " + err.Error(), map[string]interface{}{"case": cs.desc()}})
-					w = world.New()
-				}
-			case <-time.After(20 * time.Second):
-				out.Violations = append(out.Violations, shardViolation{"engine-wedged:" + cs.kind, "after " + cs.desc() + " the next write blocks (writer slot not released)", map[string]interface{}{"case": cs.desc()}})
+			if what, _ := e1.AwaitStep(<-pgid, pfin, 20*time.Second, 5*time.Minute); what != "" {
+				out.Violations = append(out.Violations, shardViolation{"engine-wedged:" + cs.kind, "after " + cs.desc() + " the next write blocks (writer slot not released): " + what, map[string]interface{}{"case": cs.desc()}})
+				w = world.New()
+			} else if err := <-probe; err != nil {
+				out.Violations = append(out.Violations, shardViolation{"engine-unusable:" + cs.kind, "after " + cs.desc() + " the next write fails: " + err.Error(), map[string]interface{}{"case": cs.desc()}})
 				w = world.New()
 			}
 		}
